@@ -48,6 +48,68 @@ def check(run, prog, tier):
     run.rule("C16-E", "index set, level tables, links and decay factors of the hierarchy (finite evaluation of the "
                       "constructor)", minimum=6)
     rule_E(run, prog, tier)
+    run.rule("C16-F", "the open-system interface builds a hierarchy of the requested depth on every call", minimum=3)
+    rule_F(run, prog)
+
+
+def rule_F(run, prog):
+    """'every multi-index with total order up to the requested depth': whatever get_KTHierarchy returns
+    must be a KTHierarchy constructed in this call with depth = the depth argument (a hierarchy kept
+    from an earlier call belongs to the depth of that call), and get_KTHierarchyPropagator must pass
+    its depth on."""
+    rid = "C16-F"
+    OS = "quantarhei.builders.opensystem.OpenSystem."
+    f = prog.func(OS + "get_KTHierarchy")
+    params = [a.arg for a in f.node.args.args]
+    if "depth" not in params:
+        raise AnalysisError("get_KTHierarchy lost its depth argument")
+    rets = [n for n in walk_no_nested(f.node) if isinstance(n, ast.Return)]
+    if not rets:
+        raise AnalysisError("get_KTHierarchy returns nothing")
+
+    def ctor_calls(value):
+        """constructor calls a returned value can come from, or None if some source is not a construction"""
+        if isinstance(value, ast.Call) and call_name(value) == "KTHierarchy":
+            return [value]
+        if isinstance(value, ast.Name):
+            binds = [n for n in walk_no_nested(f.node) if isinstance(n, ast.Assign)
+                     and any(isinstance(t_, ast.Name) and t_.id == value.id for t_ in n.targets)]
+            out = []
+            for b in binds:
+                c = ctor_calls(b.value) if not isinstance(b.value, ast.Name) else None
+                if c is None:
+                    return None
+                out += c
+            return out or None
+        return None
+    for r in rets:
+        calls = ctor_calls(r.value) if r.value is not None else None
+        ok = calls is not None
+        why = "the returned value %s is not (only) a KTHierarchy constructed in this call" % (norm(r.value) if r.value is not None else None)
+        if ok:
+            for c in calls:
+                d = [k.value for k in c.keywords if k.arg == "depth"] or c.args[2:3]
+                if not d or norm(d[0]) != "depth":
+                    ok = False
+                    why = "the hierarchy is constructed with depth %s instead of the requested depth" % (norm(d[0]) if d else "default")
+        run.obligation(rid, "OpenSystem.get_KTHierarchy", ok, key="fresh-with-requested-depth:" + norm(r)[:40],
+                       message=why, loc=f.loc(r), sample={"return": norm(r)[:60]})
+    g = prog.func(OS + "get_KTHierarchyPropagator")
+    gp = [a.arg for a in g.node.args.args]
+    calls = [c for c in walk_no_nested(g.node) if isinstance(c, ast.Call) and call_name(c) == "get_KTHierarchy"]
+    ok = len(calls) == 1 and "depth" in gp and (
+        (calls[0].args and norm(calls[0].args[0]) == "depth") or
+        any(k.arg == "depth" and norm(k.value) == "depth" for k in calls[0].keywords))
+    run.obligation(rid, "OpenSystem.get_KTHierarchyPropagator", ok, key="depth-passed-on",
+                   message="the propagator getter must request the hierarchy with its own depth argument", loc=g.loc())
+    if ok:
+        v = [n for n in walk_no_nested(g.node) if isinstance(n, ast.Assign) and n.value is calls[0]]
+        rets = [n for n in walk_no_nested(g.node) if isinstance(n, ast.Return)]
+        name = v[0].targets[0].id if v and isinstance(v[0].targets[0], ast.Name) else None
+        ok2 = len(rets) == 1 and isinstance(rets[0].value, ast.Call) and call_name(rets[0].value) == "KTHierarchyPropagator" \
+            and name is not None and any(isinstance(a, ast.Name) and a.id == name for a in rets[0].value.args)
+        run.obligation(rid, "OpenSystem.get_KTHierarchyPropagator", ok2, key="propagator-on-that-hierarchy",
+                       message="the propagator must be built on the hierarchy just requested", loc=g.loc())
 
 
 def rule_E(run, prog, tier):
